@@ -39,6 +39,19 @@ CHECKS = {
         "cubic in the file size are run on small files only (performance is not part of the property). Repaired: 5ed415b (empty file), 586ff9a (zero-length read).",
    technique="Coq proof (refinement of the sliding-window reader to the identity reader, symbolic sizes) + differential reader histories and file-vs-string runs",
    ref="DESIGN.md 7 C07"),
+ "C08": dict(
+   text="Theorems (closed): C08_compile_total - for EVERY sequence of runes the modelled Compile (lexer state machine, token parser, Pratt expression parser, regex-literal sub-parser, semantic "
+        "checks, generator) ends with a program or an error value: no index past the end of the token slice or of a regex literal (the Go panics are explicit PCrash results, proved unreachable) and "
+        "no loop beyond a fuel that is linear in the source (|src|+2 tokens, 4|tokens|+8 nested parser calls, 4|regex|+8 regex-parser calls); C08_lex_total; C08_tokens_end_with_eof (the invariant "
+        "the parser relies on); C08_regex_total; C08_no_partial_tree. Tie: token stream (ast.VerifLex hook) and syntax tree / error class of the implementation compared with the extracted model on "
+        "corpus + generated programs x every prefix and one-token deletion/duplication/swap, token soups, random bytes, arbitrary regex bodies, nesting to depth 3000; the implementation must return "
+        "program xor printable error without panic, hang or 2 GB.",
+   note="The model reads runes; unicode classes are concrete for ASCII/Latin-1, so sources with other runes outside strings/comments/regex bodies, invalid UTF-8 and numbers above 6 digits are checked "
+        "on the implementation only. 'Bounded memory': known finding K25 (loop counts are unrolled: compile cost grows with the product of nested minimum counts, `find all exactly 99999999 'a'` "
+        "exhausts memory); the generator model is a total function but its output size is not bounded by the source length. Repaired by earlier fix commits: unterminated regex literal hang, "
+        "token-index panics, regex-body index panics (see known_findings.json).",
+   technique="Coq proof (Hoare-style 'safe' predicate over the fuelled parser model; mutual induction on fuel with progress measures) + differential correspondence of tokens and trees on mutated sources",
+   ref="DESIGN.md 7 C08"),
  "C09": dict(
    text="Theorems (closed): C09_attempt_no_crash - wherever the specification is defined an attempt ends in SUCCESS or FAILED (every VM crash site is an explicit Crashed result "
         "of the model and is unreachable); C09_find_returns - for call-free, predicate-free patterns `find all` returns a match list on every text; C09_find_returns_when_defined. "
@@ -184,7 +197,7 @@ def main():
         "hooks": {"guard": "verif",
                   "enable": "go build -tags verif in /verif/harness (module vharness; replace directives point at /repo/libvore/...)",
                   "baseline_off_cmd": "for m in $(cat /w/out/gomods.txt); do MF=$(cd /repo/$m && . /w/out/goenv.sh && gomodflag); (cd /repo/$m && go test $MF -json -vet=off -count=1 -timeout 25m ./...); done",
-                  "source_commits": [],
+                  "source_commits": ["34fba41"],
                   "add_only": True},
         "engines": [{"name": "coq+corr", "path": "/verif/check", "serves_properties": sorted(CHECKS),
                      "kind_free_text": "Coq 8.16 development (coq/), extracted OCaml model (ocaml/), Go correspondence harness (harness/), Python driver (lib/)"}],
